@@ -78,7 +78,7 @@ RULES["C05"] = ("capacity-1 DAG benches on MT executors with delays at task/exec
                 "a plain (non-atomic) model field written by every handler exposes double polls to Miri/TSan as data races; non-trivial = a handler started while a sender was suspended")
 sim_plan("C05", ["mt"], miri_parts=["mt"], tsan_parts=["mt"])
 LEVEL["C06"] = "exploration"
-RULES["C06"] = ("closed-form deadlock benches (analytic reports), random cyclic benches with query loops/saturation/orphan mailboxes/sub-models, and healthy DAG benches under MT with delays "
+RULES["C06"] = ("closed-form deadlock benches (analytic reports; including events and queries addressed to a dropped mailbox, which must not be counted as lost), random cyclic benches with query loops/saturation/orphan mailboxes/sub-models, and healthy DAG benches under MT with delays "
                 "on the idle/park hand-off; every Deadlock/MessageLoss/Ok result compared with per-mailbox (pushes - pops) ground truth from channel probes; "
                 "non-trivial = an execution that produced a deadlock/loss report, or a healthy bench run under MT delays")
 PLAN["C06"] = {"quick": [job("native", "closed", 4, 300), job("native", "random", 16, 600), job("native", "healthy", 16, 600)],
